@@ -26,8 +26,11 @@ CV = "essential_types::convert::"
 def run(ctx):
     prog = ctx.prog
     for r, t in [("R1", "endianness pair and identity layouts of the fixed-width converters"), ("R2", "human-readable branch pairs"), ("R3", "layout agreement of the binary codecs"),
-                 ("R4", "legacy field names"), ("R5", "Display / FromStr pairs")]:
+                 ("R4", "legacy field names"), ("R5", "Display / FromStr pairs"),
+                 ("R6", "derived binary framing: every struct writes all its fields unconditionally in declaration order and visit_seq reads one element per field in that order")]:
         ctx.rule(r, t)
+    from .. import serdepos
+    serdepos.check(ctx, "R6")
     # ---- R1 ---------------------------------------------------------------
     for fn, callee in [("bytes_from_word", "std::num::<impl i64>::to_be_bytes"), ("word_from_bytes", "std::num::<impl i64>::from_be_bytes")]:
         f = prog.fn(CV + fn)
